@@ -113,11 +113,48 @@ func dumpStores(o *out, m, b *storeUnder) {
 	o.pf("DUMP %s %s\n", strings.Join(items, ";"), bs)
 }
 
+// runStoreCapCase: more versions of one object than the bolt prefix scan is willing to look at (store_bolt.go gives up
+// after `iter` keys): VERIF_BOLT_CAP+200 metadata packets /many/32=metadata/v=<i>/seg=0, then the consumer's query.
+func runStoreCapCase(o *out, ncap int) {
+	m := newStore("m")
+	b := newStore("b")
+	defer m.close()
+	defer b.close()
+	o.pf("STORE\n")
+	prefix := enc.Name{enc.NewStringComponent(enc.TypeGenericNameComponent, "many"),
+		enc.NewStringComponent(enc.TypeKeywordNameComponent, "metadata")}
+	n := ncap + 200
+	for i := 1; i <= n; i++ {
+		if i%100 == 1 {
+			o.pf("BEGIN\n")
+			m.st.Begin()
+			b.st.Begin()
+		}
+		nm := append(append(enc.Name{}, prefix...), enc.NewVersionComponent(uint64(i)), enc.NewSegmentComponent(0))
+		wire := []byte{byte(i >> 8), byte(i), 0xcc}
+		o.pf("PUT %s %d %s\n", nameStr(nm), i, hx(wire))
+		m.st.Put(nm, uint64(i), wire)
+		b.st.Put(nm, uint64(i), wire)
+		if i%100 == 0 || i == n {
+			o.pf("COMMIT\n")
+			m.st.Commit()
+			b.st.Commit()
+		}
+	}
+	wm, _ := m.st.Get(prefix, true)
+	wb, _ := b.st.Get(prefix, true)
+	o.pf("GET %s 1 %s %s\n", nameStr(prefix), optHex(wm), optHex(wb))
+	o.pf("END\n")
+}
+
 func TestStoreTrace(t *testing.T) {
 	r := newRand()
 	n := envInt("VERIF_N", 40)
 	o := newOut()
 	defer o.close()
+	if c := envInt("VERIF_BOLT_CAP", 0); c > 0 {
+		runStoreCapCase(o, c)
+	}
 	for i := 0; i < n; i++ {
 		runStoreCase(o, r, 10+r.Intn(60))
 	}
